@@ -910,6 +910,8 @@ class Emitter:
                 return self.tr(args[0], env, cx, lambda at, aty: k(f"(if {rt} then Some {at} else None)", ("opt", aty)))
             if base == "checked_add" and rty == "N" and len(args) == 1:
                 return self.tr(args[0], env, cx, lambda at, _: k(f"(checked_add_usize {rt} {at})", ("opt", "N")))
+            if base == "into_report" and tyname == "ParseError" and len(args) == 1:
+                return self.tr(args[0], env, cx, lambda at, aty: k(f"(mk_RichParseError {rt} {self.coerce(at, aty, 'str')})", ("named", "RichParseError")))
             if base == "into_inner" and tyname == "RangeInclusive":
                 return k(f"(RangeInclusive_start {rt}, RangeInclusive_end_ {rt})", ("tuple", ["N", "N"]))
             if is_str(rty) or rty == "Cow":
@@ -1591,6 +1593,9 @@ EXTERN_STRUCTS = {      # core::ops range types, as far as the crate looks insid
     "Range": [("start", ["usize"]), ("end_", ["usize"])], "RangeFrom": [("start", ["usize"])], "RangeTo": [("end_", ["usize"])],
     "RangeInclusive": [("start", ["usize"]), ("end_", ["usize"])], "RangeToInclusive": [("end_", ["usize"])], "RangeFull": [],
 }
+# diagnostic::Report<T> at T = ParseError (RichParseError): the error and the subject it is about (`Diagnostic::into_report` is
+# `Report::new(self, subject.into())`, a one-line default method of the trait)
+EXTERN_STRUCTS["RichParseError"] = [("source", ["ParseError"]), ("subject", ["String"])]
 EXTERN_ENUMS = {"Bound": [("Included", "tuple", [["usize"]]), ("Excluded", "tuple", [["usize"]]), ("Unbounded", "unit", [])],
                 # core::num::ParseIntError, by the IntErrorKind values `str::parse::<usize>` can produce
                 "ParseIntError": [("Empty", "unit", []), ("InvalidDigit", "unit", []), ("PosOverflow", "unit", [])]}
@@ -1816,7 +1821,7 @@ def discover_cmp(repo):
 CONFIG = {
     "types": ["InvalidEncoding", "EncodingError", "Token", "Tokens", "Component", "Components", "ParseError", "Index", "OutOfBoundsError",
               "Range", "RangeFrom", "RangeTo", "RangeInclusive", "RangeToInclusive", "RangeFull", "Bound",
-              "ParseIntError", "InvalidCharacterError", "ParseIndexError", "ResolveError", "AssignError", "ReplaceError"],
+              "ParseIntError", "InvalidCharacterError", "ParseIndexError", "ResolveError", "AssignError", "ReplaceError", "RichParseError"],
     # types that mention references into a document: emitted at the head of the group that uses them (after GenTreePrelude.lens)
     "group_types": {"TreeMut": ["Assigned"]},
     # identifiers renamed while lexing a file (two modules both call their error type `Error`)
@@ -1977,6 +1982,7 @@ CONFIG = {
             {"file": "src/pointer.rs", "impl": "PointerBuf", "trait_exact": "Deref", "name": "deref", "coq": "gen_PointerBuf_deref", "self_ty": "BufDeref",
              "self_type": ("named", "PointerBuf"), "ret": ("named", "Pointer")},
             {"file": "src/pointer.rs", "impl": "Pointer", "name": "to_json_value", "coq": "gen_Pointer_to_json_value", "ret": ("named", "Value")},
+            {"file": "src/pointer.rs", "impl": "PointerBuf", "name": "parse", "coq": "gen_PointerBuf_parse", "param_types": {"s": "String"}},
             {"file": "src/pointer.rs", "impl": "PointerBuf", "name": "new", "coq": "gen_PointerBuf_new"},
             {"file": "src/pointer.rs", "impl": "PointerBuf", "name": "root", "coq": "gen_PointerBuf_root"},
             {"file": "src/pointer.rs", "impl": "PointerBuf", "trait_exact": "TryFrom<String>", "name": "try_from", "coq": "gen_PointerBuf_try_from_String", "self_ty": "BufTryFromString", "self_alias": "PointerBuf",
